@@ -2,6 +2,7 @@ SPECIFICATION Spec
 CONSTANT Part = "machine"
 CONSTANT Deviation = "none"
 CONSTANT MaxDepth = 3
+CONSTANT Rebounds = FALSE
 CONSTANT Export = TRUE
 INVARIANT MachineTypeOK
 INVARIANT C05_ForecastUses
